@@ -82,7 +82,10 @@ class CCQR(QR):
             )
 
         # Initialize helper variables
-        R = basis_matrix.conj().T.copy()
+        # Work on a floating-point copy: the reflectors are applied in place, which an
+        # integer matrix (the Identity basis keeps the dtype of integer training data)
+        # cannot hold.
+        R = basis_matrix.conj().T.astype(np.result_type(basis_matrix.dtype, np.float32))
         p = np.arange(n)
         k = min(m, n)
         # Next row of R to be eliminated. It only advances on non-zero pivots:
